@@ -5,6 +5,7 @@ fault-free run counts N library allocations; then N runs with the k-th allocatio
 no leak, no sanitizer report, and the call during which the failure struck must report failure / end of archive."""
 import os, random, glob
 from .. import build, core, rdh, arc, streams
+from ..lhamodel import header as H
 from . import c15
 
 LEVEL = 'fault_enumeration'
@@ -203,6 +204,24 @@ def run(ctx):
         if bad and i % 2 == 0:
             bad[0].m['crc'] ^= 0x5a5a
         items.append(('generated-%d' % i, arc.archive(members), histories_for(members, rnd, 4 if ctx.tier == 'quick' else 12)[:(14 if ctx.tier == 'quick' else 80)]))
+    # headers in which an extended header of the same type occurs two or three times (the last one wins; what the earlier
+    # ones allocated must be released)
+    nrep = 0
+    for lvl in (1, 2, 3):
+        for t, vals in ((0x01, [b'first-name', b'nm', b'third']), (0x02, [b'one\xff', b'two\xfflonger\xff', b'x\xff']), (0x53, [b'user-one', b'u2', b'user-three-long']),
+                        (0x52, [b'grp', b'group-two', b'g']), (0x50, [H.u16(0o100644), H.u16(0o100600)]), (0x51, [H.u16(1) + H.u16(2), H.u16(3) + H.u16(4)]),
+                        (0x54, [H.u32(1000000000), H.u32(1100000000)]), (0x41, [bytes(24), bytes(range(24))])):
+            for reps in (2, 3):
+                x = arc.file_member(rnd, '-lh5-', b'base', size=30, level=lvl)
+                extra = [(t, v) for v in vals[:reps]]
+                if t in (0x52, 0x53) and reps == 3:
+                    extra += [(0x52 if t == 0x53 else 0x53, b'other'), (0x52 if t == 0x53 else 0x53, b'other-again')]
+                x.m['exts'] = x.m['exts'] + extra if lvl != 1 else extra + x.m['exts']
+                tail = arc.file_member(rnd, '-lh0-', b'after', size=3, level=2)
+                items.append(('repeated-ext-%02x-x%d-L%d' % (t, reps, lvl), arc.archive([x, tail]),
+                              [('N', 'N', 'N'), ('N', 'RA', 'N', 'C'), ('N', 'X', 'N', 'X', 'N'), ('N',)]))
+                nrep += 1
+    ctx.cov['repeated_ext_header_archives'] = nrep
     ncoll = 0
     for name, members in collision_archives(rnd, ctx.tier):
         full = []
@@ -234,7 +253,7 @@ def run(ctx):
     ctx.cov['exhaustive'] = True
     ctx.cov['exhaustive_subspace'] = 'for every (archive, history) run: every k in 1..N where N = allocations made by the library in the fault-free run'
     ctx.cov['rule'] = ('(archive, history, policy, stream kind, k) tuples; histories obey the C15 side conditions and include every prefix of full '
-                       'walks (abandon anywhere; archives whose entries collide on disk - the same name twice or as file/directory/dangerous/safe symlink - so '
+                       'walks (abandon anywhere; headers repeating an extended header of the same type two or three times; archives whose entries collide on disk - the same name twice or as file/directory/dangerous/safe symlink - so '
                        'that extract calls find unexpected things in place, also while a re-presented directory or deferred symlink is current), extraction with header paths '
                        'and explicit names; k enumerated over all allocations; distinct by the whole tuple; non-trivial = history longer than one op '
                        'or any injected run')
